@@ -43,6 +43,7 @@ def run(ctx):
             ctx.guard("C13", "cursor", lambda: engine.pointer_cursor(ctx, prog))
             ctx.guard("C13", "enginemap", lambda: engine.engine_correspondence(ctx, base, prog))
         ctx.guard("C13", "const values", lambda: data.const_census(ctx, prog, data.CONST_SCOPES["C13"], floor=1))
+        ctx.guard("C13", "panic conditions", lambda: beliefs.live_census(ctx, prog, beliefs.SCOPES["C13"][0]))
         ctx.guard("C13", "overflow-borders", lambda: gen.overflow_borders(ctx, prog))
         ctx.guard("C13", "summaries", lambda: summary.check(ctx, prog, 'internals::generate::Generator', floor=5))
         ctx.guard("C13", "path summaries", lambda: summary.check_paths(ctx, prog, 'internals::generate::Generator', floor=2))
